@@ -156,6 +156,14 @@ class PolyAFinder:
             #logger.debug("shift: %d, ref shift: %d, reference: %d" % (shift, ref_shift, reference_polya_start))
 
         logger.debug("PolyA found at position %d" % reference_polya_start)
+        # the tail may be preceded by clipped bases at the very end of the reference sequence
+        # (the polyT position is kept inside the reference in the same way below)
+        try:
+            reference_length = alignment.header.get_reference_length(alignment.reference_name)
+        except (AttributeError, KeyError, ValueError, TypeError):
+            reference_length = None
+        if reference_length:
+            reference_polya_start = min(reference_length, reference_polya_start)
         return reference_polya_start
 
     def find_polyt_head(self, alignment, from_pos, to_pos, check_entire_head=False):
